@@ -98,7 +98,7 @@ class C01(WMode):
     prop = "C01"
 
     def draw(self, rng):
-        cfg = draw_config(rng, "linear", wmax=64, dmax=8, nodes_max=4, events=(15, 60))
+        cfg = draw_config(rng, "linear", wmax=64, dmax=8, nodes_max=4, events=(15, 60), run_index=getattr(self, "run_index", None))
         cfg["weights"] = hist_weights()
         cfg["mult"] = rng.choice([
             {"one": 3, "small": 3, "mid": 2, "zero": 1, "ceil": 1, "half": 1, "huge": 1, "pow2": 1},
@@ -213,7 +213,7 @@ class C02(WMode):
     prop = "C02"
 
     def draw(self, rng):
-        cfg = draw_config(rng, "hll", nodes_max=5, events=(15, 60))
+        cfg = draw_config(rng, "hll", nodes_max=5, events=(15, 60), run_index=getattr(self, "run_index", None))
         cfg["weights"] = hist_weights(work=55)
         cfg["mult"] = {"one": 2, "small": 2, "mid": 1, "zero": 1, "huge": 1}
         n = cfg["n_nodes"]
@@ -360,7 +360,7 @@ class HHMode(WMode):
         self.prop = prop
 
     def draw(self, rng):
-        cfg = draw_config(rng, "hh", wmax=16, nodes_max=4, events=(12, 50))
+        cfg = draw_config(rng, "hh", wmax=16, nodes_max=4, events=(12, 50), run_index=getattr(self, "run_index", None))
         cfg["weights"] = hist_weights()
         if self.prop == "C03":
             cfg["mult"] = rng.choice([
@@ -468,8 +468,8 @@ class C13(WMode):
     prop = "C13"
 
     def draw(self, rng):
-        cfg = draw_config(rng, "hh", wmax=8, nodes_max=3, events=(15, 60))
-        cfg["shared"] = rng.random() < 0.3
+        cfg = draw_config(rng, "hh", wmax=8, nodes_max=3, events=(15, 60), run_index=getattr(self, "run_index", None), thr_shared=True)
+        cfg["shared"] = rng.random() < 0.3 or cfg.get("thr", {}).get("dim") == "shm_multiple"
         w = hist_weights(work=40, views=cfg["shared"])
         w["query"] = 40
         cfg["weights"] = w
@@ -607,7 +607,7 @@ class C05(WMode):
 
     def draw(self, rng):
         fam = rng.choice(["linear", "linear", "log16", "log8", "log8"])
-        cfg = draw_config(rng, fam, wmax=16, nodes_max=3, events=(15, 50))
+        cfg = draw_config(rng, fam, wmax=16, nodes_max=3, events=(15, 50), run_index=getattr(self, "run_index", None))
         cfg["weights"] = hist_weights(work=70)
         cfg["entry_weights"] = {"add": 8, "update_list": 1, "update_dict": 1, "add_ngram": 1, "update_ngram": 0.5}
         if fam == "linear":
@@ -753,7 +753,7 @@ class C09(WMode):
 
     def draw(self, rng):
         fam = rng.choice(["linear", "log16", "log8", "log8"])
-        cfg = draw_config(rng, fam, wmax=16, nodes_max=4, events=(12, 40))
+        cfg = draw_config(rng, fam, wmax=16, nodes_max=4, events=(12, 40), run_index=getattr(self, "run_index", None))
         cfg["capture_merge"] = True
         r = rng.random()
         cfg["sub"] = "history"
@@ -953,7 +953,7 @@ class C10(WMode):
 
     def draw(self, rng):
         fam = rng.choice(["linear", "log16", "log8", "hh", "hll"])
-        cfg = draw_config(rng, fam, wmax=16, nodes_max=3, events=(12, 45))
+        cfg = draw_config(rng, fam, wmax=16, nodes_max=3, events=(12, 45), run_index=getattr(self, "run_index", None))
         cfg["shadow"] = True
         w = hist_weights(work=50)
         w["save"], w["crash_restart"] = 14, 12
@@ -1008,7 +1008,7 @@ class C12(WMode):
 
     def draw(self, rng):
         fam = rng.choice(["linear", "log16", "log8", "hh", "hll"])
-        cfg = draw_config(rng, fam, wmax=8, nodes_max=2, events=(10, 40))
+        cfg = draw_config(rng, fam, wmax=8, nodes_max=2, events=(10, 40), run_index=getattr(self, "run_index", None))
         cfg["shadow"] = True
         cfg["shadow_single_adds"] = True
         cfg["weights"] = {"work": 100}
@@ -1092,7 +1092,7 @@ class C15(WMode):
 
     def draw(self, rng):
         fam = rng.choice(["linear", "log16", "log8", "hh", "hll"])
-        cfg = draw_config(rng, fam, wmax=16, nodes_max=3, events=(8, 30))
+        cfg = draw_config(rng, fam, wmax=16, nodes_max=3, events=(8, 30), run_index=getattr(self, "run_index", None))
         w = hist_weights(work=40)
         w["skew"] = 35
         cfg["weights"] = w
@@ -1208,7 +1208,7 @@ class C16(WMode):
 
     def draw(self, rng):
         fam = rng.choice(["linear", "log16", "log8", "hh", "hll"])
-        cfg = draw_config(rng, fam, wmax=9, nodes_max=3, events=(12, 45))
+        cfg = draw_config(rng, fam, wmax=9, nodes_max=3, events=(12, 45), run_index=getattr(self, "run_index", None), thr_shared=True)
         cfg["shared"] = True
         cfg["shadow"] = True
         cfg["weights"] = hist_weights(work=50, views=True)
@@ -1315,7 +1315,7 @@ class C18(WMode):
 
     def draw(self, rng):
         fam = rng.choice(["linear", "log16", "log8", "log8", "hh"])
-        cfg = draw_config(rng, fam, wmax=8, nodes_max=3, events=(12, 45))
+        cfg = draw_config(rng, fam, wmax=8, nodes_max=3, events=(12, 45), run_index=getattr(self, "run_index", None))
         w = hist_weights(work=55)
         if fam in LOG:
             w["ctor"] = 8
@@ -1567,7 +1567,7 @@ class C06(WMode):
 
     def draw(self, rng):
         fam = rng.choice(["log8", "log8", "log16"])
-        cfg = draw_config(rng, fam, wmax=16, nodes_max=3, events=(12, 45))
+        cfg = draw_config(rng, fam, wmax=16, nodes_max=3, events=(12, 45), run_index=getattr(self, "run_index", None))
         from .gen import LOG8_GRID, LOG16_GRID
 
         cfg["max_count"], cfg["num_reserved"] = rng.choice(LOG8_GRID if fam == "log8" else LOG16_GRID)
